@@ -319,3 +319,28 @@ for _pid in sorted({p for r in R_bd.load_table() for p in r["properties"]}):
             "end, not the behaviour on either side."
         )
         PROPS[_pid]["trusted_base"] = list(PROPS[_pid]["trusted_base"]) + ["ref/boundaries.json (rows confirmed by reading, one reason each)"]
+
+# ---------------------------------------------------------------------------------------------------------------------------
+# R-HANDLERS: the handler inventory (ref/handlers.json) contributes rows to these properties
+from .rules import handlers as R_hd
+
+for _pid in sorted({p for ps in R_hd.FILE_PROPS.values() for p in ps}):
+    if _pid in PROPS:
+        PROPS[_pid]["rules"].append((R_hd.r_handlers(_pid), Q))
+        PROPS[_pid]["explanation"] += (
+            " (R-HANDLERS) the try statements of this property's files still catch every exception class recorded for them in "
+            "ref/handlers.json (handlers may be widened, not narrowed)."
+        )
+        PROPS[_pid]["trusted_base"] = list(PROPS[_pid]["trusted_base"]) + ["ref/handlers.json (inventory of the reviewed tree)"]
+
+# ---------------------------------------------------------------------------------------------------------------------------
+# R-DEFAULTS: the default-argument inventory (ref/defaults.json)
+from .rules import defaults as R_df
+
+for _pid in sorted({p for ps in R_df.FILE_PROPS.values() for p in ps}):
+    if _pid in PROPS:
+        PROPS[_pid]["rules"].append((R_df.r_defaults(_pid), Q))
+        PROPS[_pid]["explanation"] += (
+            " (R-DEFAULTS) the default arguments of this property's core API still have the values recorded in ref/defaults.json."
+        )
+        PROPS[_pid]["trusted_base"] = list(PROPS[_pid]["trusted_base"]) + ["ref/defaults.json (inventory of the reviewed tree)"]
